@@ -1,14 +1,8 @@
 (* Proofs/ZipCryptoProofs.v — C15: the generated cipher (Gen/ZipCryptoGen.v, from src/zipcrypto.rs)
    round-trips for any key schedule, and is the PKWARE cipher of Spec/ZipCryptoSpec.v. *)
-From ZipV Require Import Base.Bytes Base.Outcome Base.Sweep Gen.GenLib Gen.ZipCryptoGen
+From ZipV Require Import Base.Bytes Base.Outcome Base.Sweep Base.Bits Gen.GenLib Gen.ZipCryptoGen
      Spec.Crc32Spec Spec.ZipCryptoSpec Model.Readers.
 Open Scope N_scope.
-
-(* ---- xor on bytes stays a byte (complete 2^16 sweep) *)
-Lemma sweep_lxor : sweep2 (fun a b => N.lxor a b <? 256) 256 256 = true.
-Proof. vm_compute. reflexivity. Qed.
-Lemma lxor_byte a b : a < 256 -> b < 256 -> N.lxor a b < 256.
-Proof. intros Ha Hb. pose proof (sweep2_ok _ _ _ sweep_lxor a b Ha Hb) as H. cbv beta in H. now apply N.ltb_lt in H. Qed.
 
 Lemma stream_byte_lt k : ZipCryptoKeys_stream_byte k < 256.
 Proof. unfold ZipCryptoKeys_stream_byte, cast. cbv zeta. apply N.mod_lt. discriminate. Qed.
